@@ -35,6 +35,8 @@ inductive Answer where
   | rpcError (code : Int) (msg : Option String)
   /-- no answer before the deadline -/
   | silence
+  /-- the peer closes the read side without answering (`EndOfStream`) -/
+  | closed
   deriving Repr, DecidableEq
 
 /-- A message put on the write stream. -/
@@ -68,6 +70,8 @@ inductive Outcome where
   | noVersions
   /-- the call has not returned: its send of the notification is still pending -/
   | blocked
+  /-- a stream operation raised (`EndOfStream`, `BrokenResourceError`, `ClosedResourceError`) -/
+  | transportFailed
   deriving Repr, DecidableEq
 
 /-- `needle in hay` on character lists -/
@@ -91,6 +95,7 @@ def clientInit (sup : List String) (pref : Option String) (ans : Answer) : Outco
     let req := Ev.sent (.initialize p)
     match ans with
     | .silence => (.timedOut, [req])
+    | .closed => (.transportFailed, [req])
     | .malformed => (.invalid, [req, .answered])
     | .rpcError code msg =>
       if code = invalidParams ∧ (msg.map mentionsVersion).getD false = true then
@@ -107,10 +112,12 @@ memory stream whose reader is the transport / the peer) takes the item.  `send_i
 awaits that send with no bound of its own, so it returns only after the hand-over. -/
 
 /-- What the write side does with the notification once the client starts sending it:
-take it `delay` ticks later, or never. -/
+take it `delay` ticks later, never, or refuse it (the peer closed that direction after
+answering: the send raises). -/
 inductive WriteSide where
   | accepts (delay : Nat)
   | never
+  | refuses
   deriving Repr, DecidableEq
 
 /-- `send_initialize` against an explicit write side (blocking send, as in the code). -/
@@ -121,6 +128,7 @@ def clientInitW (sup : List String) (pref : Option String) (ans : Answer) (w : W
     match w with
     | .accepts _ => (.ok v, t ++ [.handed])
     | .never => (.blocked, t)
+    | .refuses => (.transportFailed, t)
   | r => r
 
 /-- COUNTER-MODEL (not the code): the send wrapped in `move_on_after(T)` — the pending send is
@@ -133,6 +141,7 @@ def clientInitMoveOn (T : Nat) (eventsFirst : Bool) (sup : List String) (pref : 
     match w with
     | .accepts d => if d < T ∨ (d = T ∧ eventsFirst = true) then (.ok v, t ++ [.handed]) else (.ok v, t)
     | .never => (.ok v, t)
+    | .refuses => (.transportFailed, t)
   | r => r
 
 /-! ### Tracked client (`send_initialize_with_client_tracking` + `BatchProcessor`) -/
@@ -192,6 +201,22 @@ def trackedInit (parse : String → Option (Int × Int × Int)) (sup : List Stri
   | (.ok v, t) => (.ok v, t, some (v, batchingOf parse v))
   | (o, t) => (o, t, none)
 
+/-- One call of a sequence on the same streams / the same tracked client: the caller's list,
+the preferred version, what the peer does. -/
+abbrev ClientStep := List String × Option String × Answer
+
+/-- Consecutive calls with one tracked client: each call is a fresh negotiation; the client's
+batch-processor state is overwritten by a success and left alone by a failure. -/
+def runClientSeq (parse : String → Option (Int × Int × Int)) :
+    Tracked → List ClientStep → List (Outcome × List Ev × Tracked)
+  | _, [] => []
+  | tr, (sup, pref, ans) :: rest =>
+    let r := trackedInit parse sup pref ans
+    let tr' : Tracked := match r.2.2 with
+      | some x => some x
+      | none => tr
+    (r.1, r.2.1, tr') :: runClientSeq parse tr' rest
+
 /-! ## Server -/
 
 /-- The `protocolVersion` member of the initialize request's params. -/
@@ -247,6 +272,47 @@ def runInits (sup : List String) (dflt : Option String) :
     let sid := st.length
     let tail := runInits sup dflt st' rest
     ((rep.answered, st'[sid]?) :: tail.1, tail.2)
+
+/-! ### The server's free choice
+
+The property leaves open WHICH supported version answers a request that cannot be echoed
+(unsupported, malformed, non-string, absent).  `serverAnswerG` is the whole family of
+conforming handlers: `choice` is the version the handler falls back to for this request
+(ignored unless it is a supported one).  The code is the member of the family whose choice is
+`serverAnswer sup dflt r` itself (`Props/C04.lean`, `c04_code_is_instance`); the correspondence
+run instantiates `choice` with the answer it observed, so it accepts exactly the handlers that
+echo supported requests and answer everything else with SOME supported version. -/
+
+def serverAnswerG (sup : List String) (choice : String) (r : Requested) : String :=
+  match r with
+  | .str s => if s ∈ sup then s else (if choice ∈ sup then choice else sup.headD "")
+  | _ => if choice ∈ sup then choice else sup.headD ""
+
+def handleInitializeG (sup : List String) (choice : String) (r : Requested) : InitReply :=
+  let v := serverAnswerG sup choice r
+  { answered := v, recorded := v }
+
+/-- a step of a sequence with the handler's choice for it -/
+abbrev InitStepG := Requested × Option Nat × String
+
+def runInitsG (sup : List String) :
+    List String → List InitStepG → List (String × Option String) × List String
+  | st, [] => ([], st)
+  | st, (r, _carry, choice) :: rest =>
+    let rep := handleInitializeG sup choice r
+    let st' := st ++ [rep.recorded]
+    let sid := st.length
+    let tail := runInitsG sup st' rest
+    ((rep.answered, st'[sid]?) :: tail.1, tail.2)
+
+def handshakeG (clientSup : List String) (pref : Option String) (serverSup : List String)
+    (choice : String) : Outcome × List Ev × Option String :=
+  match proposed clientSup pref with
+  | none => (.noVersions, [], none)
+  | some p =>
+    let rep := handleInitializeG serverSup choice (.str p)
+    let r := clientInit clientSup pref (.version rep.answered)
+    (r.1, r.2, some rep.recorded)
 
 /-- Library client against library server: the client's outcome and transcript, and the
 version the server's session records (`none`: the request was never sent). -/
